@@ -190,7 +190,7 @@ def collect(ck, tier, ex):
             return res
         bins[v] = hbin
     key = hashlib.sha1(("|".join(sorted(bins.values())) + params_line(ex) + tier + str(ck.seed) +
-                        vlib.tree_hash([os.path.join(vlib.VERIF, "tools", "backend_gen.py"), os.path.join(vlib.VERIF, "corpus"), vlib.DRIVER])).encode()).hexdigest()[:16]
+                        vlib.tree_hash([os.path.join(vlib.VERIF, "tools", "backend_gen.py"), os.path.abspath(__file__), os.path.join(vlib.VERIF, "corpus"), vlib.DRIVER])).encode()).hexdigest()[:16]
     cpath = os.path.join(vlib.CACHE, "backend_%s.json" % key)
     if os.path.exists(cpath):
         r = json.load(open(cpath))
@@ -213,7 +213,7 @@ def collect(ck, tier, ex):
         if os.path.isdir(cdir):
             for f in sorted(os.listdir(cdir)):
                 m = re.search(r"\.v(\d)\.txt$", f)
-                if m and int(m.group(1)) in VARIANTS:
+                if m and (int(m.group(1)) in VARIANTS or int(m.group(1)) in ORACLE_ONLY):
                     lines = [l.rstrip("\n") for l in open(os.path.join(cdir, f)) if l.strip() and not l.startswith("#")]
                     jobs.insert(0, (int(m.group(1)), "corpus_%s_%s" % (prop, f[:-4].replace(".", "_")), lines))
     pline = params_line(ex)
@@ -229,7 +229,7 @@ def collect(ck, tier, ex):
         res["cases"] += 1
         for (p, msg) in bg.oracles(out.split("\n")):
             res["oracle"].append({"prop": p, "msg": msg, "case": name})
-        if name.startswith(("v2_", "v3_")):
+        if variant_of_case(name) in ORACLE_ONLY:
             res["oracle_only_cases"] = res.get("oracle_only_cases", 0) + 1
             continue
         blob.append("case %s\n%s\n%s" % (name, pline, out))
